@@ -75,11 +75,55 @@ func (fx *FuncExec) typeFromString(s string, pkg *types.Package) (sortName strin
 	case "string":
 		return "Str", types.Typ[types.String]
 	}
+	t = fx.parseType(s, pkg)
+	return fx.reg.SortOf(t), t
+}
+
+// parseType resolves Go type syntax used in specs (qualified names resolve
+// against all loaded packages, since spec files have no import clause).
+func (fx *FuncExec) parseType(s string, pkg *types.Package) types.Type {
+	s = strings.TrimSpace(s)
+	if a, ok := fx.ctx.spec.SortAlias[s]; ok {
+		s = a
+	}
+	switch {
+	case s == "any" || s == "interface{}":
+		return types.NewInterfaceType(nil, nil)
+	case strings.HasPrefix(s, "*"):
+		return types.NewPointer(fx.parseType(s[1:], pkg))
+	case strings.HasPrefix(s, "[]"):
+		return types.NewSlice(fx.parseType(s[2:], pkg))
+	case strings.HasPrefix(s, "map["):
+		depth := 0
+		for i := 3; i < len(s); i++ {
+			switch s[i] {
+			case '[':
+				depth++
+			case ']':
+				depth--
+				if depth == 0 {
+					return types.NewMap(fx.parseType(s[4:i], pkg), fx.parseType(s[i+1:], pkg))
+				}
+			}
+		}
+	case s == "struct{}":
+		return types.NewStruct(nil, nil)
+	}
+	if i := strings.Index(s, "."); i > 0 && !strings.ContainsAny(s, "()[]{} ") {
+		if p := fx.ctx.pkgByName(s[:i]); p != nil {
+			if o := p.Scope().Lookup(s[i+1:]); o != nil {
+				if tn, ok := o.(*types.TypeName); ok {
+					return tn.Type()
+				}
+			}
+		}
+		panic(specError{fmt.Sprintf("cannot resolve spec type %q", s)})
+	}
 	tv, err := types.Eval(fx.ctx.fset, pkg, token.NoPos, s)
-	if err != nil {
+	if err != nil || tv.Type == nil {
 		panic(specError{fmt.Sprintf("cannot resolve spec type %q in %s: %v", s, pkg.Name(), err)})
 	}
-	return fx.reg.SortOf(tv.Type), tv.Type
+	return tv.Type
 }
 
 func (e *SpecEnv) coerce(t Term, sort string) Term {
